@@ -143,6 +143,46 @@ class NormalNormal(DictCfg):
         return {"mu": self.s0}
 
 
+class TwoBlocks(DictCfg):
+    """Two independent blocks a, b with their own data; kernels of the *same* type on each block, so that
+    any coupling of the blocks' randomness shows up in cross-moments."""
+
+    def __init__(self, name, kern):
+        super().__init__(name)
+        self.kern = kern
+
+    def prior_predictive(self, rng, N):
+        a = rng.normal(0, 1.0, N)
+        b = rng.normal(0, 1.0, N)
+        return {"a": a, "b": b}, {"ya": a + rng.normal(size=N), "yb": b + rng.normal(size=N)}
+
+    def log_prob(self, s):
+        return -0.5 * (s["a"] ** 2 + s["b"] ** 2 + (s["ya"] - s["a"]) ** 2 + (s["yb"] - s["b"]) ** 2)
+
+    def kernels(self):
+        import jax.numpy as jnp
+        import liesel.goose as gs
+
+        if self.kern == "rw+rw":
+            return [gs.RWKernel(["a"], initial_step_size=1.0), gs.RWKernel(["b"], initial_step_size=1.0)]
+        if self.kern == "iwls+iwls":
+            return [gs.IWLSKernel(["a"], initial_step_size=1.0), gs.IWLSKernel(["b"], initial_step_size=1.0)]
+        return [gs.HMCKernel(["a"], initial_step_size=0.5, initial_inverse_mass_matrix=jnp.ones(1), num_integration_steps=2),
+                gs.HMCKernel(["b"], initial_step_size=0.5, initial_inverse_mass_matrix=jnp.ones(1), num_integration_steps=2)]
+
+    def test_functions(self, th, data):
+        a, b = th["a"], th["b"]
+        ra, rb = a - data["ya"] / 2, b - data["yb"] / 2      # posterior residuals: independent under the posterior
+        return {"a": a, "b": b, "a^2": a ** 2, "b^2": b ** 2, "a*b": a * b, "ra*rb": ra * rb, "ra^2*rb^2": (ra * rb) ** 2,
+                "|ra|*|rb|": np.abs(ra) * np.abs(rb)}
+
+    def prior_cdfs(self):
+        return {"a": lambda x: sst.norm.cdf(x, 0, 1.0), "b": lambda x: sst.norm.cdf(x, 0, 1.0)}
+
+    def prior_sd(self):
+        return {"a": 1.0, "b": 1.0}
+
+
 class MeanLogScale(DictCfg):
     n = 6
 
@@ -445,6 +485,8 @@ def all_configs():
     cfgs = {}
     for k in ("rw", "hmc", "nuts", "iwls", "mh_asym", "gibbs"):
         cfgs[f"normal-normal/{k}"] = lambda k=k: NormalNormal(f"normal-normal/{k}", k)
+    for k in ("rw+rw", "iwls+iwls", "hmc+hmc"):
+        cfgs[f"two-blocks/{k}"] = lambda k=k: TwoBlocks(f"two-blocks/{k}", k)
     for k in ("rw+hmc", "nuts_joint", "iwls_joint", "mh+rw", "hmc_dense"):
         cfgs[f"mean-logscale/{k}"] = lambda k=k: MeanLogScale(f"mean-logscale/{k}", k)
     for fam in ("logit", "pois"):
@@ -459,7 +501,7 @@ def all_configs():
     return cfgs
 
 
-QUICK = ["normal-normal/rw", "normal-normal/mh_asym", "normal-normal/gibbs", "mean-logscale/rw+hmc", "mean-logscale/nuts_joint",
+QUICK = ["two-blocks/rw+rw", "normal-normal/rw", "normal-normal/mh_asym", "normal-normal/gibbs", "mean-logscale/rw+hmc", "mean-logscale/nuts_joint",
          "mean-logscale/iwls_joint", "logit/iwls", "pois/iwls_user", "liesel-linreg/nuts+rw", "liesel-linreg/iwls+gibbs",
          "liesel-smooth/iwls+tau2", "liesel-mixture/disc+nuts"]
 
